@@ -394,7 +394,7 @@ class C18(C.Check):
 
     def cases(self, ctx):
         rng = ctx.rng(18)
-        nT = 10 if ctx.quick else 60
+        nT = 7 if ctx.quick else 60
         return [gen_case(rng, i) for i in range(nT)]
 
     def correspondence(self, ctx, res):
@@ -407,7 +407,7 @@ class C18(C.Check):
         self.obs_cf = []
         cf_case = dict(cases[0], pe=[], napprox=0)
         configs = [(3, True), (2, True), (1, True), (3, False), (2, False)]
-        tasks = (1, 2, 4, 5) if ctx.quick else (1, 2, 3, 4, 5, 6, 7)
+        tasks = (1, 2, 5) if ctx.quick else (1, 2, 3, 4, 5, 6, 7)
         if ctx.quick:
             configs = [(3, True), (2, True), (3, False)]
         ref = {}
@@ -467,15 +467,25 @@ class C18(C.Check):
         # ---- (3)/(4) mirrored samples, geoVI on linear models ----
         self.obs_S = []
         nS = 4 if ctx.quick else 20
-        for case in cases[:nS]:
+        jobs = [(case, "re") for case in cases[:nS]]
+        cl_geo = [c for c in cases if not c["nonlinear"] and c["noise"] == "diag"]
+        rng_extra = ctx.rng(1801)
+        k = 0
+        while len(cl_geo) < (3 if ctx.quick else 12):       # make sure the classic geometric sampler is exercised
+            c = gen_case(rng_extra, 500 + k)
+            k += 1
+            if c["noise"] == "diag":
+                c["nonlinear"] = False
+                cl_geo.append(c)
+        jobs += [(case, "cl") for case in cl_geo[:(3 if ctx.quick else 12)]]
+        jobs += [(case, "re") for case in cl_geo[:(2 if ctx.quick else 12)] if case not in cases[:nS]]
+        for case, api in jobs:
             lg = L.LG(case)
-            for api in ("cl", "re"):
+            if True:
                 try:
                     if api == "re":
                         o = jax_samples_and_geo(lg, case, ctx.seed)
                     else:
-                        if case["nonlinear"] or case["noise"] != "diag":
-                            continue
                         o = classic_geo(lg, case, ctx.seed)
                     err = None
                 except Exception as e:
